@@ -262,7 +262,7 @@ func genC12(r *vh.Runner) {
 		}
 	}
 	// (c) multi-message sessions with failing opens in the middle
-	ns := r.Pick(48, 24000)
+	ns := r.Pick(48, 100000)
 	for b := 0; b < ns; b++ {
 		r.Case(fmt.Sprintf("session/%d", b), map[string]any{"batch": b}, func(c *vh.Case) {
 			rng := vh.NewRand(r.Seed, "c12-session", b)
@@ -298,7 +298,7 @@ func genC12(r *vh.Runner) {
 		r.Case(fmt.Sprintf("keybytes/%d", kl), map[string]any{"key_len": kl}, func(c *vh.Case) { keyBytes(r, c, kl) })
 	}
 	// (f) aliasing patterns
-	na := r.Pick(32, 16000)
+	na := r.Pick(32, 64000)
 	for b := 0; b < na; b++ {
 		r.Case(fmt.Sprintf("alias/%d", b), map[string]any{"batch": b}, func(c *vh.Case) {
 			rng := vh.NewRand(r.Seed, "c12-alias", b)
@@ -309,7 +309,7 @@ func genC12(r *vh.Runner) {
 		})
 	}
 	// (g) raw Kra/Vatte with split inputs
-	nr := r.Pick(32, 16000)
+	nr := r.Pick(32, 64000)
 	for b := 0; b < nr; b++ {
 		r.Case(fmt.Sprintf("raw/%d", b), map[string]any{"batch": b}, func(c *vh.Case) {
 			rng := vh.NewRand(r.Seed, "c12-raw", b)
